@@ -88,7 +88,7 @@ func c19Race(c *Ctx) {
 		sub, mode string
 		rounds    int
 	}
-	jobs := []job{{"c19-racecanary", "race-canary", 1}, {"c19-hammer", "race", rounds}, {"c19-confirmrace", "race-confirmrace", 3}, {"c19-mineinsert", "race-mineinsert", 1}, {"c19-maprace", "race-maprace", 2}}
+	jobs := []job{{"c19-racecanary", "race-canary", 1}, {"c19-hammer", "race", rounds}, {"c19-confirmrace", "race-confirmrace", 3}, {"c19-mineinsert", "race-mineinsert", 1}, {"c19-maprace", "race-maprace", 2}, {"c19-restart", "race-restart", 2}}
 	all := map[string]*c19RacePair{}
 	reports := 0
 	for _, j := range jobs {
@@ -189,6 +189,9 @@ func c19ParseRaces(text, repo string) map[string]*c19RacePair {
 					}
 					if root == "" && strings.HasPrefix(fn, "store.CBlock.") {
 						root = "ChainDatabase.UnConfirmBlocks"
+					}
+					if fn == "store.ChainDatabase.appendConfirm" {
+						root = "Block.Confirms" // the Confirms slice of a *types.Block shared with lock-free readers
 					}
 				}
 				if m != nil && (strings.HasPrefix(file, repo+"/") || strings.Contains(m[1], "LemoFoundationLtd/lemochain-core/")) {
